@@ -80,3 +80,18 @@ Theorem C11_plain_document_reads_as_its_tree : forall uni_word t, wf t = true ->
   parse uni_word (ser t) = Done [(tname t, val_of t)].
 Proof. exact reader_extracts_tree. Qed.
 Print Assumptions C11_plain_document_reads_as_its_tree.
+
+(* the file: for every well-formed response whose identifiers and base64 texts are plain (non-empty attribute values without quotes, '<', '>' or
+   line breaks; element texts without '<' and without leading/trailing blanks), the loader applied to the TEXT the writer model lays out
+   (skr_text: XML declaration, one element per line, four blanks per level - compared with the real writer's output per run) returns the
+   response that was written, keys of each bundle in key-tag order *)
+From KV Require Import Model.Shape Model.SkrText Proofs.SkrTextProofs Proofs.SkrOk.
+Theorem C11_skr_file_roundtrip : forall uni_word b64 r, wf_response b64 r -> texts_ok r = true ->
+  exists d, parse_ksr uni_word (skr_text r) = Done d /\ response_of_val b64 d = OK (canon_response r).
+Proof. exact skr_file_roundtrip. Qed.
+Print Assumptions C11_skr_file_roundtrip.
+
+Theorem C11_skr_text_reads_as_written : forall uni_word r, shape_ok (skr_shape r) = true ->
+  parse_ksr uni_word (skr_text r) = Done [(nKSR, sval (skr_shape r))].
+Proof. exact skr_text_reads_as_written. Qed.
+Print Assumptions C11_skr_text_reads_as_written.
